@@ -40,7 +40,8 @@ type TaskRunner struct {
 	cancelFunc  context.CancelFunc
 	cancelMutex sync.RWMutex
 	canceling   bool
-	doneCh      chan struct{}
+	inflight    int
+	idle        *sync.Cond
 
 	compiler *TaskCompiler
 
@@ -61,8 +62,8 @@ func NewTaskRunner(opts ...Opts) (*TaskRunner, error) {
 		Stderr:       os.Stderr,
 		variables:    variables.NewVariables(),
 		env:          variables.NewVariables(),
-		doneCh:       make(chan struct{}, 1),
 	}
+	r.idle = sync.NewCond(&r.cancelMutex)
 
 	r.ctx, r.cancelFunc = context.WithCancel(context.Background())
 
@@ -92,17 +93,22 @@ func (r *TaskRunner) SetVariables(vars variables.Container) *TaskRunner {
 // Run run provided task.
 // TaskRunner first compiles task into linked list of Jobs, then passes those jobs to Executor
 func (r *TaskRunner) Run(t *task.Task) error {
-	defer func() {
-		r.cancelMutex.RLock()
-		if r.canceling {
-			close(r.doneCh)
-		}
-		r.cancelMutex.RUnlock()
-	}()
-
+	r.cancelMutex.Lock()
 	if err := r.ctx.Err(); err != nil {
+		r.cancelMutex.Unlock()
 		return err
 	}
+	r.inflight++
+	r.cancelMutex.Unlock()
+
+	defer func() {
+		r.cancelMutex.Lock()
+		r.inflight--
+		if r.inflight == 0 {
+			r.idle.Broadcast()
+		}
+		r.cancelMutex.Unlock()
+	}()
 
 	execContext, err := r.contextForTask(t)
 	if err != nil {
@@ -179,7 +185,7 @@ func (r *TaskRunner) Run(t *task.Task) error {
 	return r.after(r.ctx, t, env, vars)
 }
 
-// Cancel cancels execution
+// Cancel cancels execution and waits until every task that is in flight has returned
 func (r *TaskRunner) Cancel() {
 	r.cancelMutex.Lock()
 	if !r.canceling {
@@ -187,8 +193,10 @@ func (r *TaskRunner) Cancel() {
 		defer logrus.Debug("runner has been cancelled")
 		r.cancelFunc()
 	}
+	for r.inflight > 0 {
+		r.idle.Wait()
+	}
 	r.cancelMutex.Unlock()
-	<-r.doneCh
 }
 
 // Finish makes cleanup tasks over contexts
